@@ -434,9 +434,11 @@ func lexValue(l *lexer) stateFn {
 		}
 	}
 
-	if seenFinalQuote || r != eof {
-		l.emit(itemValue)
+	if !seenFinalQuote {
+		return l.errorf("unterminated quoted string")
 	}
+
+	l.emit(itemValue)
 	return lexText
 }
 
